@@ -1098,7 +1098,7 @@ def main(tier):
     # ---- part C: command line --------------------------------------------------------------
     e2e = e2e_projects(ck, rng, 24 if thorough else 8)
     pfx = prefix_named_projects(ck, rng, 16 if thorough else 5)
-    nam = named_module_projects(ck, rng, 27 if thorough else 9) if not os.environ.get("S611_OFF") else []
+    nam = named_module_projects(ck, rng, 27 if thorough else 9)
     graphs += e2e + pfx + nam
     namespace_cycle(ck)
     lib.log("C11: cli projects done at %.1fs" % (__import__("time").time() - ck.t0))
